@@ -30,9 +30,10 @@ static Scene make_scene(Rng& g) {
     s.target_region = g.range(0, 6);
     V3 n(0, 0, 1); V3 v[3] = {a, b, c};
     V3 ctr = (a + b + c) / 3;
-    // distance classes: 0 on the triangle / boundary, 1 tiny, 2 comparable, 3 far
-    s.dist_class = g.range(0, 3);
-    double dist = s.dist_class == 0 ? 0.0 : s.dist_class == 1 ? g.logu(1e-9, 1e-4) : s.dist_class == 2 ? g.logu(1e-2, 2) : g.logu(2, 50);
+    // distance classes: 0 on the triangle / boundary, 1 tiny, 2 comparable, 3 far, 4 far field
+    // (4: the far field, 1e3 .. 1e5 edge lengths away, still straight above the interior of the face or of an edge - or beyond a corner)
+    s.dist_class = g.range(0, 4);
+    double dist = s.dist_class == 0 ? 0.0 : s.dist_class == 1 ? g.logu(1e-9, 1e-4) : s.dist_class == 2 ? g.logu(1e-2, 2) : s.dist_class == 3 ? g.logu(2, 50) : g.logu(1e3, 1e5);
     V3 q, dir;
     if (s.target_region == 0) {
         double u = g.uni(0.02, 1), w = g.uni(0.02, 1), x = g.uni(0.02, 1); double sm = u + w + x; u /= sm; w /= sm; x /= sm;
